@@ -75,6 +75,9 @@ def run(case):
     if np.any(delta > 1e10):
         res.fail("C18.delta_cap", "delta=%r exceeds 1e10" % float(np.max(delta)))
     det = sc.deterministic(case)
+    # with averaging the stored value of a point is a running mean: equal samples of a deterministic function still move it by
+    # an ulp as they are averaged in (seed 23 of the multi-seed protocol: an 'increase' of 2e-17); exact without averaging
+    fk_slack = 16 * sc.EPS * 4 if case.get("nsamples") else 0.0
     rho_red = delta_inc = False
     for i in range(1, nrows):
         if runs[i] == runs[i - 1]:
@@ -85,7 +88,7 @@ def run(case):
                 rho_red = True
             if delta[i] > delta[i - 1]:
                 delta_inc = True
-            if det and fk[i] > fk[i - 1]:
+            if det and fk[i] > fk[i - 1] * (1 + fk_slack) + 1e-300:
                 res.fail("C18.fk_monotone", "row %d: recorded best objective increased from %r to %r within run %d" % (i, fk[i - 1], fk[i], runs[i]))
                 break
     if list(df["iters_total"].values) != list(range(nrows)):
